@@ -1534,7 +1534,9 @@ impl<'a> Parser<'a> {
                         Value::Constant(ConstantValue::Null(self.empty_token()))
                     }
                 };
-                let span = Span::new(start, self.end_index);
+                // If neither a name nor a value was consumed, the previous token ends
+                // before `start`: the (empty) argument sits at `start`.
+                let span = Span::new(start, self.end_index.max(start));
                 items.push(Argument {
                     span,
                     name,
